@@ -498,7 +498,7 @@ def twin_of(rng, prog, algebras, pools):
     return out
 
 
-def gen_trace(rng, tier='quick', crit_names=(), arm=None):
+def gen_trace(rng, tier='quick', crit_names=(), arm=None, targets=()):
     """A complete C09 run description (see DESIGN.md 8.1)."""
     u = rng.random()
     dims = [1, 2, 3, 4, 7]
@@ -656,11 +656,17 @@ def gen_trace(rng, tier='quick', crit_names=(), arm=None):
         for c, prog in enumerate(callers):
             for i, _ in enumerate(prog):
                 if rng.random() < rate:
+                    kind = rng.choice(['interrupt', 'alloc_fail'])
+                    if targets and rng.random() < 0.5:
+                        # targeted: the nth time one particular line of a cache update is reached
+                        q, ln = rng.choice(targets)
+                        faults.append({'caller': c, 'op': i, 'kind': kind, 'anchor': None, 'skip': 0,
+                                       'line': [q, ln], 'nth': rng.choice([1, 1, 1, 2, 3])})
+                        continue
                     anchor = rng.choice(anchors) if rng.random() < 0.6 else None
                     u = rng.random()
                     skip = rng.randint(0, 30) if u < 0.55 else rng.randint(30, 400) if u < 0.9 else rng.randint(400, 4000)
-                    faults.append({'caller': c, 'op': i, 'kind': rng.choice(['interrupt', 'alloc_fail']),
-                                   'anchor': anchor, 'skip': skip})
+                    faults.append({'caller': c, 'op': i, 'kind': kind, 'anchor': anchor, 'skip': skip})
         for ai, a in enumerate(algebras):
             if a.get('wrapper') and rng.random() < 0.3:
                 wrapper_faults.append({'alg': ai, 'when': rng.choice(['apply', 'call']), 'at': rng.randint(1, 6)})
